@@ -343,6 +343,16 @@ class C11(Prop):
         return n >= 2 and obs['tree'] != obs['tree0']
 
     def signature(self, case, obs, clause):
+        # known finding: a TARBALL directive with an explicitly empty target packs the file under the name of the
+        # task sandbox itself and the agent cannot unpack it
+        if clause == 'only_that_task_fails':
+            def empty_tar(t):
+                return any(isinstance(d, dict) and d.get('action') == 'Tarball' and 'target' in d
+                           and not (d['target'] or '').strip() for d in t['in'])
+            failed = [t for t, o in zip(case['tasks'], obs['tasks'])
+                      if o['states'] and o['states'][-1] != t['outcome']]
+            if failed and all(empty_tar(t) for t in failed):
+                return 'only_that_task_fails:agent_staging_input:tarball-with-empty-target'
         return '%s:staging' % clause
 
     def shrink(self, case):
